@@ -103,9 +103,13 @@ CLAIMED["C04"] = ("§0.6 / §4 C04",
     "Narrow: decides the finite skeleton of default bookkeeping — the mode lattice maybeDefault < isDefault < notDefault with combineDefault as its maximum, the mark table of mode(), that a single disjunct is returned as the default only when NumDefaults == 1 (several defaults stay a disjunction, none returns the value itself), and that NumDefaults counts exactly the surviving isDefault disjuncts. It does NOT decide the cross product, duplicate elimination or which disjuncts survive, which is the run-time core of the property.",
     "cross product and elimination of disjuncts are value-level and not decided")
 
+CLAIMED["C13"] = ("§0.7 / §4 C13",
+    "registry exhaustiveness of the generated keyword table, def-use analysis of the per-schema state against the table's phase numbers (who writes / who reads each field, transitively through helpers, stopping at child-state constructors), operator tables of the bound keywords in both directions by finite case analysis, CFG gates on the keyword dispatcher",
+    "Narrow: decides structural necessary conditions of the keyword translation — every keyword of the conformance subset has exactly one translating handler; a handler that reads per-schema state written by another keyword's handler runs in a strictly later phase (exclusiveMinimum before minimum, minContains before contains, properties/patternProperties before additionalProperties, properties before required, $schema first, ...) and state shared across phases is only narrowed; each bound keyword adds its constraint for the right core type with the right operator/builtin, and the generator spells each operator as the keyword the importer reads back as that operator (including the boolean-exclusive dialects); the dispatcher calls a handler only in its own phase and only for schema versions it is defined for. It does NOT decide that the CUE built for a keyword or a combination of keywords accepts exactly the instances JSON Schema prescribes (matchN/matchIf/closedness interactions): that is the core of the property and needs an independent validator as oracle.",
+    "constraints_gen.go is what is compiled in; CUE builtins (strings.MinRunes, list.MatchN, struct.MinFields, ...) trusted")
+
 # properties not claimed (yet) -> reason
 NOT_APPLICABLE = {
-    "C13": "semantic equivalence of two schema languages on all instances; no structural necessary condition in reach (DESIGN.md §4)",
 }
 
 ALL = ["C%02d" % i for i in range(1, 21)]
